@@ -416,6 +416,12 @@ def run_timeout_rule(spec):
         got_lock = any(o == 'ok' for o in flocks) and all(o == 'same' for o in stats_) and bool(flocks) and flocks[-1] == 'ok'
         if got_lock or not times or times[-1] != 'late' or ('enter', None) in before:
             bad.append(tr)
+        # ... and the clock is read right after the last failed attempt: a waiter must not sleep and then give up
+        # without looking again (the lock may have been released before the deadline)
+        names_ = [e for e, o in before]
+        last_attempt = max([j for j, e in enumerate(names_) if e == 'flock' or e == 'stat'] or [-1])
+        if 'sleep' in names_[last_attempt + 1:]:
+            bad.append(tr)
         if a['style'] == 'sem':
             # a semaphore is "taken" only if every one of its n slot files was tried (and failed) in the last pass
             last = before
